@@ -498,6 +498,7 @@ pub fn run(args: &Args, rep: &mut Report) {
             if thorough {
                 exhaustive_short(&mut e, 3, &[1, 7]);
             }
+            operand_matrix(&mut e, thorough);
             random_cases(&mut e, Focus::General, scale(40_000, 1_500_000), ls, &[], "random");
             random_cases(&mut e, Focus::Compute, scale(6_000, 200_000), ls, &[], "random-compute");
             random_cases(&mut e, Focus::Access, scale(2_000, 60_000), ls, &[], "random-access");
